@@ -135,6 +135,9 @@ type NodeOpts struct {
 	// RestartEvery: when a recording is replayed (C01) the node is stopped and restarted from its database after
 	// every commit, so that nothing it keeps in process memory outlives a block.
 	RestartEvery bool `json:"restart_every,omitempty"`
+	// InvCheckPeriod: the node's --inv-check-period (x/crisis asserts all registered invariants in end-block every
+	// that many blocks; 0 = never). Node-local.
+	InvCheckPeriod uint `json:"inv_check_period,omitempty"`
 }
 
 type Account struct {
@@ -208,7 +211,7 @@ var CustomMsgURLs = []string{
 func (c *Chain) appOptions() simtestutil.AppOptionsMap {
 	o := simtestutil.AppOptionsMap{}
 	o[flags.FlagHome] = c.home
-	o[server.FlagInvCheckPeriod] = uint(0)
+	o[server.FlagInvCheckPeriod] = c.Opts.InvCheckPeriod
 	if c.Opts.SkipGenesisInv {
 		o["x-crisis-skip-assert-invariants"] = true
 	}
